@@ -54,9 +54,14 @@ thread_local! {
 /// into an arena whose free list no longer terminates)
 const FATAL_SIGS: &[&str] = &["range-out-of-arena", "capacity-exceeds-arena", "cursor-range", "above-cursor", "below-data-offset", "walk-incomplete", "ctor-failed", "reopen-failed", "reopen-bytes", "infra"];
 
+/// a predicate may belong to several properties ("C01|C13")
+pub fn owns(tag: &str, id: &str) -> bool {
+    tag.split('|').any(|p| p == id)
+}
+
 pub fn soften(v: &Viol) -> bool {
     let Some(owner) = OWNER.with(|o| o.get()) else { return false };
-    if owner == v.prop || FATAL_SIGS.contains(&v.sig.as_str()) {
+    if owns(v.prop, owner) || FATAL_SIGS.contains(&v.sig.as_str()) {
         return false;
     }
     FOREIGN.with(|f| {
@@ -996,7 +1001,9 @@ impl<A: Flavor> World<A> {
                     }
                     return Ok((res, Some((off, cap, boff, bcap))));
                 }
-                let wrap_prop = if huge { "C04" } else { "C01" };
+                // an owned handle whose extent is already free again at return is also C13's business (the borrowed
+                // handle inside to_owned released it): such failures carry both tags
+                let wrap_prop = if huge { "C04" } else if owned { "C01|C13" } else { "C01" };
                 // C04 / C01: inside the arena, arithmetic did not wrap
                 ensure!(
                     off >= d && (off as u64 + cap as u64) <= post.allocated as u64 && post.allocated <= post.capacity,
